@@ -94,6 +94,7 @@ type worker struct {
 
 func (prop) Work(c core.Case) core.Result {
 	bytesgen.LimitAddressSpace()
+	bytesgen.LimitStack()
 	var cd caseData
 	c.Decode(&cd)
 	w := &worker{leaked: leakedIDs, counts: map[string]int64{}, sigs: map[string]struct{}{}}
